@@ -17,6 +17,7 @@ QuickDefs ==
     \cup { PD("plate_w", R(2,1), R(3,2), RZero, RZero, ROne, 4, 4, FlPrimes, LamGen, iv[1], iv[2], R(3,1), Zero3)
              : iv \in { <<RZero, ROne>>, <<R(1,3), ROne>> } }
     \cup { PD("plate", R(2,1), R(3,2), RZero, RZero, ROne, 3, 3, FlFree, LamIso, RZero, ROne, R(3,1), Zero3) }
+    \cup { PD("plate", R(2,1), R(3,2), RZero, RZero, ROne, 4, 4, FlFree, LamIso, RZero, ROne, R(3,1), Zero3) }
 ThoroughDefs ==
     QuickDefs
     \cup { PD(mo, ab[1], ab[2], IF mo \in {"plate", "plate_w"} THEN RZero ELSE r, RZero, ROne, mn[1], mn[2], fl, lam,
